@@ -28,8 +28,8 @@ P = SP.ph
 def skeletons():
     ps = []
 
-    def add(text, n):
-        ps.append({'fam': 'scoping', 'text': text, 'n': n})
+    def add(text, n, rebinds=False):
+        ps.append({'fam': 'scoping', 'text': text, 'n': n, 'rebinds': rebinds})
     add('let y = %s; let f = func (x) => x + y; let x = %s; let r = f(%s);' % (P(1), P(2), P(3)), 3)
     add('let f = func (x) => x + 1; let r = f(%s); let q = x;' % P(1), 1)
     add('let f = func () => y; let y = %s; let r = f();' % P(1), 1)
@@ -58,6 +58,18 @@ def skeletons():
     add('let m = module {x = 1} => { let f = func (env) => env + mod.x; let y = f(%s); }; let r = m{}.y;' % P(1), 1)
     add('let f = func (item) => item + 1; let r = f(%s);' % P(1), 1)
     add('let f = func (item) => "v" %% (item); let item = %s; let r = f(%s); let q = item;' % (P(1), P(2)), 2)
+    # every statement that binds a name — let, constraint, let with an annotation, let of an import-like expression — refuses a name
+    # that is already bound, whatever bound it
+    add('let lim = %s; constraint lim = in 1..5; let r = lim;' % P(1), 1, True)
+    add('constraint c = in 1..5; constraint c = in 10..20; let y :: c = %s;' % P(1), 1, True)
+    add('constraint c = in 1..5; let c = %s; let r = c;' % P(1), 1, True)
+    add('let f = func (x) => x + %s; constraint f = 1 | 2; let r = f(1);' % P(1), 1, True)
+    add('let a = %s; let a :: int = %s;' % (P(1), P(2)), 2, True)
+    add('let a = %s; let b = a; let a = b;' % P(1), 1, True)
+    add('let m = module {x = %s} => { let lim = mod.x; constraint lim = in 1..5; }; let r = m{};' % P(1), 1, True)
+    add('let m = module {x = %s} => { let y = mod.x; let y = 2; }; let r = m{};' % P(1), 1, True)
+    add('let f = func (x) => x; let f = func (y) => y + %s;' % P(1), 1, True)
+    add('let t = {a = %s}; constraint t = {a = 1}; let r = t.a;' % P(1), 1, True)
     return ps
 
 
@@ -89,6 +101,14 @@ def harness_prefix(ctx, case):
     names = ctx.call('Stack::symbol_list', [b.field(vmp.slot[0], 'build::opcode::vm::VM', 'symbols')]).items
     out['reached'] = True
     if resf.variant != 0:
+        return out
+    if case.get('rebinds') and k == case['text'].count(';') - 1:
+        # the whole program binds a name twice: it must not build
+        out['asserts'] += 1
+        m = ctx.model()
+        text = SP.render_text(case['text'], m, ctx, ints)
+        out['violations'].append({'key': 'C10:prefix:rebinding-accepted', 'what': 'a program that binds a name twice builds: %s' % text,
+                                  'case': {'kind': 'eval', 'text': text, 'strict': True}, 'expect': {'ok': False}})
         return out
     for name in names:
         pv = SP.binding(ctx, vmp, name)
@@ -187,7 +207,7 @@ def run(fw):
     words = reserved_words(fw.tree)
     fw.explore('reserved', harness_reserved, [{'word': w} for w in words], fuel=30_000_000)
     for v in fw.violations:
-        if v.get('case', {}).get('kind') == 'eval' and v['key'].startswith('C10:reserved'):
+        if v.get('case', {}).get('kind') == 'eval' and v['key'].startswith(('C10:reserved', 'C10:prefix:rebinding-accepted')):
             v['judge'] = lambda out: bool(out.get('ok'))
         elif v.get('case', {}).get('kind') == 'eval':
             v['judge'] = C01.make_judge(v)
